@@ -71,4 +71,136 @@ theorem mem_siteRecs {a : AutOp κ} {act : List (List Int)} {j : Nat} (hnd : (ac
     rw [idRange_getD _ _ _ (List.idxOf_lt_length_iff.2 h2)]
     rfl
 
+theorem act_nonempty {a : AutOp κ} {L : Nat} {act : List (List Int)} (data : AutData a L act) :
+    ∀ j, j ≤ L → act.getD j [] ≠ [] := by
+  intro j
+  induction j with
+  | zero => intro _; rw [data.act0]; simp
+  | succ j ih =>
+    intro hj
+    obtain ⟨u, hu⟩ := List.exists_mem_of_ne_nil _ (ih (by omega))
+    obtain ⟨v, hv, _⟩ := data.succ j (by omega) u hu
+    exact List.ne_nil_of_mem hv
+
+theorem le_lo {a : AutOp κ} {L : Nat} {act : List (List Int)} (data : AutData a L act) :
+    ∀ j, j ≤ L + 1 → j ≤ lo act j := by
+  intro j
+  induction j with
+  | zero => intro _; exact Nat.zero_le _
+  | succ j ih =>
+    intro hj
+    have h1 := ih (by omega)
+    have h2 : 0 < actLen act j := List.length_pos_iff.2 (act_nonempty data j (by omega))
+    simp only [lo]
+    omega
+
+/-- the source and target of an edge of the unrolled graph lie in neighbouring layers -/
+theorem edge_layers {a : AutOp κ} {L : Nat} {act : List (List Int)} (data : AutData a L act) {g : Graph κ}
+    (hrecs : g.recs = (List.range L).flatMap (siteRecs a act)) {k : Int} {e : Edge κ} (he : (k, e) ∈ g.edges) :
+    ∃ j, j < L ∧ ∃ u ∈ act.getD j [], ∃ v ∈ act.getD (j + 1) [], e.nids = (gnode act j u, gnode act (j + 1) v) := by
+  have : (e.nids, e.opics) ∈ g.recs := mem_map.2 ⟨(k, e), he, rfl⟩
+  rw [hrecs, mem_flatMap] at this
+  obtain ⟨j, hj, hr⟩ := this
+  have hjL := List.mem_range.1 hj
+  obtain ⟨v, hv, ae, _, _, h2, hr⟩ := (mem_siteRecs (data.actNodup (j + 1) (by omega)) _).1 hr
+  exact ⟨j, hjL, ae.nids.1, h2, v, hv, (Prod.mk.inj hr).1⟩
+
+theorem depth_loop {a : AutOp κ} {L : Nat} {act : List (List Int)} (data : AutData a L act) {g : Graph κ}
+    (sv : SValid g) (hrecs : g.recs = (List.range L).flatMap (siteRecs a act))
+    (ht : g.term true = (lo act L : Int)) :
+    ∀ (n j : Nat), j + n = L → ∀ u ∈ act.getD j [], ∀ node, dGet? g.nodes (gnode act j u) = some node →
+      ∀ fuel depth, n < fuel → g.nodeDepthLoop true fuel node depth = .ok (depth + n) := by
+  intro n
+  induction n with
+  | zero =>
+    intro j hj u hu node hnode fuel depth hfuel
+    have hjL : j = L := by omega
+    subst hjL
+    rw [data.actL] at hu
+    simp only [mem_singleton] at hu
+    subst hu
+    have hx : gnode act j (a.term true) = g.term true := by rw [gnode, data.actL, ht]; simp
+    obtain ⟨n', hn', he'⟩ := sv.termNode true
+    rw [hx, dGet?_eq_some_of_mem sv.nodesKeys hn'] at hnode
+    cases hnode
+    obtain ⟨fuel, rfl⟩ : ∃ f, fuel = f + 1 := ⟨fuel - 1, by omega⟩
+    unfold Graph.nodeDepthLoop
+    rw [he']
+    rfl
+  | succ n ih =>
+    intro j hj u hu node hnode fuel depth hfuel
+    have hjL : j < L := by omega
+    have hnode' := mem_of_dGet?_eq_some hnode
+    -- the node has an outgoing edge
+    obtain ⟨v, hv, ae, hae, hact, h1⟩ := data.succ j hjL u hu
+    have hr : ((gnode act j ae.nids.1, gnode act (j + 1) v), normOpics (ae.opics j)) ∈ g.recs := by
+      rw [hrecs, mem_flatMap]
+      exact ⟨j, List.mem_range.2 hjL, (mem_siteRecs (data.actNodup (j + 1) (by omega)) _).2
+        ⟨v, hv, ae, hae, hact, h1 ▸ hu, rfl⟩⟩
+    obtain ⟨⟨k, ge⟩, hge, hgr⟩ := mem_map.1 hr
+    simp only [Prod.mk.injEq] at hgr
+    obtain ⟨n', hn', hk⟩ := sv.edgeNode k ge hge false
+    have hsrc : ge.nid false = gnode act j u := by rw [Edge.nid]; simp [hgr.1, h1]
+    rw [hsrc] at hn'
+    have := sv.node_unique hn' hnode'
+    subst this
+    simp only [Bool.not_false] at hk
+    obtain ⟨eid0, rest, heids⟩ : ∃ eid0 rest, n'.eids true = eid0 :: rest := by
+      cases h : n'.eids true with
+      | nil => rw [h] at hk; simp at hk
+      | cons x xs => exact ⟨x, xs, rfl⟩
+    -- follow the first one
+    obtain ⟨e0, he0, hsrc0⟩ := sv.nodeEdge _ n' hnode' true eid0 (by rw [heids]; simp)
+    obtain ⟨j', hj', u0, hu0, v0, hv0, hnids⟩ := edge_layers data hrecs he0
+    have hjj : j' = j := by
+      by_contra hne
+      apply gnode_ne_of_layer_ne act hu0 hu hne
+      have : e0.nids.1 = gnode act j u := by simpa [Edge.nid] using hsrc0
+      rw [← this, hnids]
+    subst hjj
+    obtain ⟨n1, hn1, _⟩ := sv.edgeNode eid0 e0 he0 true
+    have htgt : e0.nid true = gnode act (j' + 1) v0 := by rw [Edge.nid]; simp [hnids]
+    obtain ⟨fuel, rfl⟩ : ∃ f, fuel = f + 1 := ⟨fuel - 1, by omega⟩
+    unfold Graph.nodeDepthLoop
+    rw [heids]
+    simp only
+    have hE : g.getEdge eid0 = .ok e0 := dGet_eq_ok_iff.2 (dGet?_eq_some_of_mem sv.edgesKeys he0)
+    have hN : g.getNode (e0.nid true) = .ok n1 := dGet_eq_ok_iff.2 (dGet?_eq_some_of_mem sv.nodesKeys hn1)
+    rw [hE]
+    simp only [bind, Except.bind]
+    rw [hN]
+    simp only
+    rw [htgt] at hn1
+    rw [ih (j' + 1) (by omega) v0 hv0 n1 (dGet?_eq_some_of_mem sv.nodesKeys hn1) fuel (depth + 1) (by omega)]
+    congr 1
+    omega
+
+/-- **the unrolled graph has the requested length** -/
+theorem fromAutomaton_length {a : AutOp κ} (hv : AutValid a) {L : Int} {g : Graph κ}
+    (h : fromAutomaton a L = .ok g) : g.length = .ok L.toNat := by
+  obtain ⟨hL, back, fwd, hb, hf, h0, hLa, hrecs, hnd, hcons, hterm, hkeys, hnodes⟩ := fromAutomaton_unrolled h
+  have data := autData_of_layers hv hb hf h0 hLa hnodes
+  have sv := SValid.of_isConsistent hnd hcons
+  have ht1 : g.term true = (lo (actOf back fwd) L.toNat : Int) := by simp [Graph.term, hterm]
+  have ht0 : g.term false = gnode (actOf back fwd) 0 (a.term false) := by
+    rw [gnode, h0]
+    simp [Graph.term, hterm, lo]
+  obtain ⟨n0, hn0, _⟩ := sv.termNode false
+  have hn0' := dGet?_eq_some_of_mem sv.nodesKeys hn0
+  unfold Graph.length Graph.nodeDepth
+  have hN : g.getNode (g.term false) = .ok n0 := dGet_eq_ok_iff.2 hn0'
+  rw [hN]
+  simp only [bind, Except.bind]
+  have hlen : g.nodes.length = lo (actOf back fwd) (L.toNat + 1) := by
+    have := congrArg List.length hkeys
+    simp only [dKeys, length_map, length_cons, idRange_length] at this
+    have h1 := le_lo data 1 (by omega)
+    have h2 := lo_mono (actOf back fwd) (show 1 ≤ L.toNat + 1 by omega)
+    omega
+  rw [ht0] at hn0'
+  have := depth_loop data sv hrecs ht1 L.toNat 0 (by omega) (a.term false) (by rw [h0]; simp) n0 hn0'
+    (g.nodes.length + 1) 0 (by have := le_lo data (L.toNat + 1) (by omega); omega)
+  rw [this]
+  simp
+
 end Ptn.Og
